@@ -250,6 +250,11 @@ def run_property(mod, tier, seed, replay=None):
     log = []
     os.makedirs(EVID_DIR, exist_ok=True)
     os.makedirs(os.path.join(REPLAY_DIR, pid), exist_ok=True)
+    for fn in (f"fail-{seed}.txt", f"unproved-{seed}.txt"):
+        try:
+            os.remove(os.path.join(REPLAY_DIR, pid, fn))
+        except OSError:
+            pass
     broken = []      # broken proof obligations / ties (strings)
     listed, fixed = load_findings(pid)
 
@@ -327,12 +332,30 @@ def run_property(mod, tier, seed, replay=None):
                 out = drv.ask([c.line for _, c in ksel])
                 for (i, c), a in zip(ksel, out):
                     mans[i] = a
+            # follow-ups: requests for the model that are built from the implementation's answer
+            # (e.g. replay of a recorded trace); compared with the expected answer given.
+            if hasattr(mod, "followup") and os.path.exists(driver_bin()):
+                fus = []
+                for i, c in enumerate(sel):
+                    fu = mod.followup(c, ans[i] if i < len(ans) else "abort")
+                    if fu:
+                        fus.append((c, fu[0], fu[1]))
+                if fus:
+                    drv = Server([driver_bin()], default_timeout=120.0)
+                    out = drv.ask([l for _, l, _ in fus])
+                    for (c, l, exp), m in zip(fus, out):
+                        stats["k_compared"] += 1
+                        if m == exp:
+                            stats["k_agree"] += 1
+                        else:
+                            stats["k_disagree"] += 1
+                            k_failures.append((pr, Case(l), exp, m))
             for i, c in enumerate(sel):
                 a = ans[i] if i < len(ans) else "abort"
                 stats["evaluations"] += 1
                 if a == "hang":
                     stats["hangs"] += 1
-                if a in ("panic", "abort"):
+                if a in ("panic", "abort") or a.startswith("panic "):
                     stats["panics"] += 1
                 kl = mod.klass(c, a) if hasattr(mod, "klass") else c.op
                 dist[kl] = dist.get(kl, 0) + 1
